@@ -4,6 +4,7 @@ import (
 	"context"
 	"database/sql"
 	"errors"
+	"time"
 )
 
 // verifTx is the harness's driver transaction: it counts Commit/Rollback
@@ -16,6 +17,28 @@ type verifTx struct {
 
 func (t *verifTx) Commit() error   { t.commits++; return t.commitErr }
 func (t *verifTx) Rollback() error { t.rollbacks++; return t.rollbackE }
+
+// verifCtx is a context whose cancellation state the harness controls.
+type verifCtx struct {
+	done bool
+	ch   chan struct{}
+}
+
+func (c *verifCtx) Deadline() (time.Time, bool) { return time.Time{}, false }
+func (c *verifCtx) Done() <-chan struct{}       { return c.ch }
+func (c *verifCtx) Err() error {
+	if c.done {
+		return context.Canceled
+	}
+	return nil
+}
+func (c *verifCtx) Value(key any) any { return nil }
+func (c *verifCtx) cancel() {
+	if !c.done {
+		c.done = true
+		close(c.ch)
+	}
+}
 
 var (
 	verifErrBegin    = errors.New("begin failed")
@@ -35,6 +58,12 @@ func Verif_C11_transact() {
 		tx.rollbackE = verifErrRollback
 	}
 	body := verifChoose("body", 3) // 0 nil, 1 error, 2 panic
+	// the caller's context: live, already cancelled, or cancelled while the body runs
+	ctxMode := verifChoose("ctx", 3)
+	vctx := &verifCtx{ch: make(chan struct{})}
+	if ctxMode == 1 {
+		vctx.cancel()
+	}
 	bodyRuns := 0
 	b := func(*sql.DB) (trans, error) {
 		if beginFails {
@@ -44,6 +73,9 @@ func Verif_C11_transact() {
 	}
 	fn := func(ctx context.Context, s Session) error {
 		bodyRuns++
+		if ctxMode == 2 {
+			vctx.cancel()
+		}
 		switch body {
 		case 1:
 			return verifErrBody
@@ -56,13 +88,13 @@ func Verif_C11_transact() {
 	var panicked bool
 	via := verifChoose("entry", 2)
 	if via == 0 {
-		_, panicked = verifExpectPanic(func() { res = transactOnConn(context.Background(), nil, b, fn) })
+		_, panicked = verifExpectPanic(func() { res = transactOnConn(vctx, nil, b, fn) })
 	} else {
 		conn := &commonConn{
 			provider: func() (*sql.DB, error) { return nil, nil },
 			onError:  func(error) {},
 		}
-		_, panicked = verifExpectPanic(func() { res = transact(context.Background(), conn, b, fn) })
+		_, panicked = verifExpectPanic(func() { res = transact(vctx, conn, b, fn) })
 	}
 	if beginFails {
 		verifAssert(!panicked && res == verifErrBegin, "begin failure is returned")
